@@ -49,15 +49,36 @@ def variants(case):
 def run_case(case):
     a, b = case["prog"], case["prog2"]
     init = {n: (d.e.val.v if isinstance(d.e, lang.SigLit) else d.e.v) for n, d in lang.input_decls(a).items()}
-    r = twin.agnostic_twin(a, b, case, case["vals"], init, case.get("optimize", True))
+    skipA, skipB, excluded = set(), set(), {}
+    if known.active("loop-local-output-not-exposed"):
+        # open finding F-loop-local-output: an unconsumed Signal declared in a loop body is exported once per iteration by
+        # the unrolled program but not by the loop. Anchors of body-declared names are left out of the comparison.
+        def body_names(stmts, acc):
+            for s_ in stmts:
+                if isinstance(s_, lang.For):
+                    for x in s_.body:
+                        if isinstance(x, lang.Decl) and x.kind in ("Signal", "Bundle"):
+                            acc.add(x.name)
+                    body_names(s_.body, acc)
+                elif isinstance(s_, lang.Func):
+                    body_names(s_.body, acc)
+            return acc
+
+        skipA = body_names(a.stmts, set())
+        top_a = {s_.name for s_ in a.stmts if isinstance(s_, lang.Decl)}
+        skipB = {s_.name for s_ in b.stmts if isinstance(s_, lang.Decl) and s_.kind in ("Signal", "Bundle") and s_.name not in top_a}
+        if skipA:
+            excluded["F-loop-local-output"] = 1
+    r = twin.agnostic_twin(a, b, case, case["vals"], init, case.get("optimize", True), skipA, skipB)
     if r.get("discard"):
         return r
     info = case.get("info", {})
     classes = set()
-    for k in ("nested", "list", "var_bounds", "empty"):
+    for k in ("nested", "list", "var_bounds", "empty", "func_loop"):
         if info.get(k):
             classes.add(k)
     n_iter = sum(1 for s in b.stmts if isinstance(s, lang.Decl) and s.kind == "Entity")
     classes.add("entities:%d" % min(n_iter, 8))
     return {"failures": r.get("failures", []), "nontrivial": n_iter >= 2 and r.get("varies", False) and not r.get("failures"),
-            "classes": sorted(classes), "sample": {"looped": r["sample"]["A"], "unrolled": r["sample"]["B"][:600]}}
+            "classes": sorted(classes), "counters": {"excluded_by:" + k: v for k, v in excluded.items()},
+            "sample": {"looped": r["sample"]["A"], "unrolled": r["sample"]["B"][:600]}}
